@@ -302,9 +302,16 @@ func genScript(r *lib.Rng, h *hist, wantValid bool) script {
 	}
 	switch r.Intn(10) {
 	case 0:
-		sc.mode = lib.Pick(r, 1, 2)
 		sc.recs = rs
-		h.tags["dial"] = true
+		if h.q != nil {
+			// over QUIC a peer that does not answer costs the handshake timeout (genQUICDial has
+			// those); here the handshake fails for want of a common application protocol
+			sc.alpn = alpnLists[r.Intn(len(alpnLists))]
+			h.tags["alpn"] = true
+		} else {
+			sc.mode = lib.Pick(r, 1, 2)
+			h.tags["dial"] = true
+		}
 	case 1, 2:
 		sc.alpn = alpnLists[r.Intn(len(alpnLists))]
 		sc.recs = rs
@@ -368,6 +375,18 @@ func mutate2(r *lib.Rng, rs []rec, allowed []int) ([]rec, []byte, string) {
 
 func probe() script { return script{mode: 1, alpn: []string{"ntske/1"}} }
 
+// probe is a call that cannot succeed and, as long as cookies are left, must not reach any
+// peer: over TLS nothing listens at the address; over QUIC (where that costs the handshake
+// timeout) the peer answers with an error record.
+func (h *hist) probe() script {
+	if h.q == nil {
+		return probe()
+	}
+	sc := script{alpn: []string{"ntske/1"}, recs: []rec{{2, true, u16(1)}}}
+	sc.cut = len(sc.full())
+	return sc
+}
+
 func (h *hist) tagFetch(sc *script, ok bool) {
 	res, cookies, strict := scanGo(sc)
 	if !strict {
@@ -408,7 +427,7 @@ func (h *hist) step(sc script) bool {
 func (h *hist) drain() {
 	for i := 0; i < 40; i++ {
 		hadPool := h.pool > 0
-		ok, _ := h.fetch(probe())
+		ok, _ := h.fetch(h.probe())
 		if !ok {
 			if hadPool {
 				h.tags["drain-mismatch"] = true
@@ -436,14 +455,15 @@ func (h *hist) someStores(r *lib.Rng) {
 	}
 }
 
-func genHistory(r *lib.Rng) {
-	h := newHist(r)
+func genHistory(r *lib.Rng) { genHistoryOn(r, newHist(r)) }
+
+func genHistoryOn(r *lib.Rng, h *hist) {
 	switch r.Intn(10) {
 	case 0, 1, 2: // a failing exchange, then whatever comes next
 		h.step(genScript(r, h, false))
 		switch r.Intn(3) {
 		case 0:
-			h.step(probe())
+			h.step(h.probe())
 		case 1:
 			h.step(genScript(r, h, true))
 			h.someStores(r)
@@ -498,7 +518,7 @@ func genHistory(r *lib.Rng) {
 		finishScript(r, &sc, false)
 		h.step(sc)
 		for i := 0; i < 12 && h.pool > 0; i++ {
-			h.step(probe())
+			h.step(h.probe())
 		}
 		h.step(genScript(r, h, false))
 		sc2 := genScript(r, h, true)
@@ -569,6 +589,12 @@ func genSweeps(r *lib.Rng) {
 }
 
 func genAll(r *lib.Rng, n int, thorough bool) {
+	quicLast := func() {}
+	defer func() { quicLast() }()
+	if os.Getenv("C20_ONLY") == "quic" { // development aid: the QUIC histories alone
+		quicLast = genQUIC(r, 150)
+		return
+	}
 	genSweeps(r)
 	nt, no := 40, 10
 	if thorough {
@@ -576,7 +602,11 @@ func genAll(r *lib.Rng, n int, thorough bool) {
 	}
 	genTargets(r, nt)
 	if os.Getenv("C20_QUIC") != "0" { // on by default since the defect (D-C20b) is repaired in /repo
-		genQUIC(r)
+		nq := 150
+		if thorough {
+			nq = 1500
+		}
+		quicLast = genQUIC(r, nq)
 	}
 	for i := 0; i < no; i++ {
 		runOwn(r)
